@@ -1593,6 +1593,12 @@ class Pool:
             waitforslot = self.putlocks if waitforslot is None else waitforslot
             if waitforslot and self._putlock is not None:
                 self._putlock.acquire()
+                if self._state != RUN:
+                    # closed while we were waiting for a slot (close()
+                    # wakes the waiters up): too late for this job.  Pass
+                    # the slot on, more producers may be waiting behind us.
+                    self._putlock.release()
+                    return
             result = ApplyResult(
                 self._cache, callback, accept_callback, timeout_callback,
                 error_callback, soft_timeout, timeout, lost_worker_timeout,
